@@ -1,7 +1,8 @@
 PROP = dict(
     engine="chain", harness="chain", driver="drv_chain",
-    props=["Hostd.Props.C01", "Hostd.Gen.ChainTie"],
-    pregen=[["go", "run", "./chaintable", "{repo}", "{lean}/Hostd/Gen/ChainTable.lean"]],
+    props=["Hostd.Props.C01", "Hostd.Gen.ChainTie", "Hostd.Gen.ChainSqlTie"],
+    pregen=[["go", "run", "./chaintable", "{repo}", "{lean}/Hostd/Gen/ChainTable.lean"],
+            ["go", "run", "./sqlwhere", "{repo}", "{lean}/Hostd/Gen/ChainSql.lean"]],
     shard_extra=[dict(level="store"), dict(level="mgr")],
     driver_args=["c01/"],
     flag_filter=r"^c01/",
